@@ -8,6 +8,10 @@ CONSTANTS Roles, Lens, BigLens, Variants, HModes
 
 MCCfgs == {[role |-> r, pmce |-> p, limit |-> 0, hmode |-> h, herrAt |-> 0, policy |-> "per_message"]
              : r \in Roles, p \in BOOLEAN, h \in HModes}
+          \* a read limit that no message of the stream exceeds must not disturb decoding, whatever was abandoned before
+          \* (limit 126, every message of LimStreams has at most 126 payload bytes; round 7, seeded/C03-M)
+          \cup {[role |-> r, pmce |-> FALSE, limit |-> 126, hmode |-> h, herrAt |-> 0, policy |-> "per_message"]
+                  : r \in Roles, h \in HModes}
 
 T(c, fin, n) == Fr(c, OpText, fin, n)
 D(c, fin, n) == Fr(c, OpBin, fin, n)
@@ -30,7 +34,13 @@ CompMsgs(c) ==
 
 Small(c) == {<< D(c, TRUE, 2) >>, << T(c, FALSE, 1), C(c, TRUE, 1) >>}
 
+LimFrag(c) == {<< T(c, FALSE, 1), C(c, TRUE, 125) >>, << T(c, FALSE, 0), C(c, FALSE, 125), C(c, TRUE, 1) >>,
+               << D(c, FALSE, 1), C(c, FALSE, 0), Ping(c, 3), C(c, FALSE, 124), C(c, TRUE, 1) >>}
+LimWhole(c) == {<< D(c, TRUE, 126) >>, << T(c, FALSE, 125), C(c, TRUE, 1) >>}
+LimStreams(c) == {m \o t \o << D(c, TRUE, 126) >> : m \in LimFrag(c), t \in LimWhole(c)}
+
 MCStreams(c) ==
+  IF c.limit > 0 THEN LimStreams(c) ELSE
   LET one == PlainMsgs(c) \cup (IF c.pmce THEN CompMsgs(c) ELSE {}) IN
   one
   \cup {<< Ping(c, 0) >> \o m \o << Pong(c, 125) >> \o t : m \in Small(c), t \in Small(c)}
